@@ -113,17 +113,22 @@ func (r Resources) FindMatch(resource string) bool {
 // Match checks if the input string matches the given pattern with wildcards (`*`, `?`).
 // - `?` matches exactly one occurrence of any character.
 // - `*` matches arbitrary many (including zero) occurrences of any character.
-func (r Resources) Match(pattern, input string) bool {
+func (r Resources) Match(pat, in string) bool {
+	// compare by characters, so that `?` matches one (possibly
+	// multi-byte) character
+	pattern, input := []rune(pat), []rune(in)
 	pIdx, sIdx := 0, 0
 	starIdx, matchIdx := -1, 0
 
 	for sIdx < len(input) {
-		if pIdx < len(pattern) && (pattern[pIdx] == '?' || pattern[pIdx] == input[sIdx]) {
-			sIdx++
-			pIdx++
-		} else if pIdx < len(pattern) && pattern[pIdx] == '*' {
+		// the wildcard has to be tested first: a literal `*` in the
+		// input must not consume the pattern's wildcard as a literal
+		if pIdx < len(pattern) && pattern[pIdx] == '*' {
 			starIdx = pIdx
 			matchIdx = sIdx
+			pIdx++
+		} else if pIdx < len(pattern) && (pattern[pIdx] == '?' || pattern[pIdx] == input[sIdx]) {
+			sIdx++
 			pIdx++
 		} else if starIdx != -1 {
 			pIdx = starIdx + 1
